@@ -112,7 +112,7 @@ var specs = map[string]*propSpec{
 			// the range plugin is the one cgo path (go-sqlite3): hostile hostnames/MACs under AddressSanitizer
 			{engine: "range", buildFlags: []string{"-asan"}, parallel: 8, tBatches: 16, tCases: 6},
 		},
-		guards: []guard{{"range.crash_points", 1500, "crash points"}, {"range.restarts", 10, "restarts"}, {"rangekill.acked_bindings_verified", 100, "bindings verified after SIGKILL"}},
+		guards: []guard{{"range.crash_points", 1500, "crash points"}, {"range.restarts", 10, "restarts"}, {"rangekill.acked_bindings_verified", 100, "bindings verified after SIGKILL"}, {"range.slow_renewals", 10, "renewals after real pauses (expiry must follow the clock)"}},
 	},
 	"C08": prefixSpec("Non-trivial (C08) = history in which >= 2 clients hold prefixes and some client sent >= 2 messages; distinct by (pool, clients, seed)",
 		guard{"prefix.replies", 5000, "replies observed"}, guard{"prefix.noprefixavail", 50, "exhaustion"}, guard{"prefix.hint.in-pool-others", 100, "hints on other clients' prefixes"}),
